@@ -1,6 +1,5 @@
 (* C07 round 9 - proofs for ClassMembers.v *)
 From Coq Require Import List String Bool Arith.
-From YVGen Require Import ClassSrc.
 From YV Require Import Show Classes ClassSpec ClassLang ClassMembers.
 Import ListNotations.
 Open Scope string_scope.
@@ -66,9 +65,3 @@ Lemma ex_super_value_field_ok :
   show_outcome (eval_mech ex_super_value_field) = ex_super_value_field_outcome /\
   show_outcome (eval_spec ex_super_value_field) = ex_super_value_field_outcome.
 Proof. split; vm_compute; reflexivity. Qed.
-
-Lemma side_member_lookup_state_and_shape :
-  str_list_eqb src_vm_state_fields model_vm_state_fields = true /\
-  pair_list_eqb src_member_lookup_shapes model_member_lookup_shapes = true /\
-  str_list_eqb src_class_and_name_functions model_class_and_name_functions = true.
-Proof. vm_compute. repeat split; reflexivity. Qed.
